@@ -333,10 +333,14 @@ def dec_key(k):
         return bool(v)
     if t == "tuple":
         return tuple(dec_key(x) for x in v)
+    if t == "none":
+        return None
     raise ValueError(t)
 
 
 def enc_key(k):
+    if k is None:
+        return {"t": "none", "v": None}
     if isinstance(k, bool):
         return {"t": "bool", "v": k}
     if isinstance(k, int):
